@@ -7,7 +7,7 @@ import json, re, sys
 src = sys.argv[1] if len(sys.argv) > 1 else "/verif/seeded/LAST_RUN.txt"
 out = {}
 for line in open(src):
-    m = re.match(r"(C\d\d-(?:r2)?m\d)\s+(\w+)\s+by=(\S+)\s+err=(\S+)", line)
+    m = re.match(r"(C\d\d-(?:r\d)?m\d)\s+(\w+)\s+by=(\S+)\s+err=(\S+)", line)
     if m:
         out[m.group(1)] = {"reported_by": [] if m.group(3) == "-" else m.group(3).split(","),
                            "refused_by": [] if m.group(4) == "-" else m.group(4).split(",")}
